@@ -233,9 +233,14 @@ class PDFResourceManager:
                 font = PDFCIDFont(self, spec)
             elif subtype == "Type0":
                 # Type0 Font
-                dfonts = list_value(spec["DescendantFonts"])
-                assert dfonts
+                dfonts = list_value(spec.get("DescendantFonts"))
+                if not dfonts:
+                    raise PDFFontError("Type0 font without DescendantFonts")
                 subspec = dict_value(dfonts[0]).copy()
+                if literal_name(subspec.get("Subtype")) == "Type0":
+                    # a descendant must be a CIDFont; a Type0 font here
+                    # could refer back to its parent endlessly.
+                    raise PDFFontError("Descendant font is a Type0 font")
                 for k in ("Encoding", "ToUnicode"):
                     if k in spec:
                         subspec[k] = resolve1(spec[k])
